@@ -291,6 +291,12 @@ void rawClient(std::vector<Spec*> group)
 			alive = false;
 			continue;
 		}
+		if (!keep && s->halfClose)
+		{
+			// a client that has nothing more to send says so (shutdown(SHUT_WR)); the response is still owed
+			sim::net::rawShutdownWrite(fd);
+			sim::faultFired("peer_half_close");
+		}
 		if (gi > 0 && sim::simNow() - connectedAt < 6.0)
 			s->cSentOnKeptAlive = true;
 		RawResponse rr = rawReadResponse(fd, buf, 60.0);
